@@ -78,6 +78,21 @@ func c17Shapes(quick bool) []Shape {
 		WriteS{Path: S("a.txt"), Data: Call("label", S("four"))}, Pr(ReadE{Path: S("a.txt")}),
 		WriteS{Path: Call("target"), Data: Paren{X: Call("label", S("x"))}, Append: T()}, Pr(ReadE{Path: Call("target")}),
 		Do(Call("store", S("y"))), Pr(ReadE{Path: S("a.txt")}, ExistsE{Path: Call("target")}))))
+	sh = append(sh, Shape{Name: "exists-edge-paths", Pre: map[string]string{"m_a.txt": "x\n"}, Setup: func(c *gosym.Ctx, in *Interp, shl *Shell) {
+		in.Files["m_a.txt"] = gosym.Conc("x\n")
+		shl.Files["m_a.txt"] = gosym.Conc("x\n")
+	}, Prog: func(c *gosym.Ctx) *Program {
+		return Prog(VarT("unset", TString), Def("empty", S("")),
+			Fn("pick", []ParamDecl{Pm("p", TString), Pm("q", TString)}, []Type{TString}, IfS(ExistsE{Path: V("p")}, Ret(V("p"))), Ret(V("q"))),
+			Pr(ExistsE{Path: V("unset")}, ExistsE{Path: V("empty")}, ExistsE{Path: S("")}),
+			Pr(ExistsE{Path: S("m_a.txt")}, ExistsE{Path: S("m_?.txt")}, ExistsE{Path: S("m_[ab].txt")}, ExistsE{Path: S("m_*")}, ExistsE{Path: S("*")}),
+			Pr(Call("pick", V("unset"), S("fallback")), Call("pick", S("m_?.txt"), S("none")), Call("pick", S("m_a.txt"), S("none"))))
+	}})
+	sh = append(sh, constShape("empty-content", Prog(
+		WriteS{Path: S("a.txt"), Data: S("")}, Pr(S("["), ReadE{Path: S("a.txt")}, S("]"), ExistsE{Path: S("a.txt")}),
+		WriteS{Path: S("b.txt"), Data: S("one two")}, WriteS{Path: S("b.txt"), Data: S(""), Append: T()}, WriteS{Path: S("b.txt"), Data: S("a * b"), Append: T()}, Pr(ReadE{Path: S("b.txt")}),
+		Def("e", S("")), WriteS{Path: S("c.txt"), Data: V("e")}, WriteS{Path: S("c.txt"), Data: S("x"), Append: T()}, Pr(S("<"), ReadE{Path: S("c.txt")}, S(">")),
+		Fn("blank", []ParamDecl{Pm("p", TString)}, nil, WriteS{Path: V("p"), Data: S(""), Append: T()}), Do(Call("blank", S("b.txt"))), WriteS{Path: S("b.txt"), Data: S("end"), Append: T()}, Pr(ReadE{Path: S("b.txt")}))))
 	sh = append(sh, Shape{Name: "append-flag-symbolic", AssumeLits: smallLits(0, 1, 0), Prog: func(c *gosym.Ctx) *Program {
 		v := SymStr(c, "v", 1, neutral)
 		return Prog(Def("s", SR(v)), WriteS{Path: S("a.txt"), Data: S("one")}, WriteS{Path: S("a.txt"), Data: V("s"), Append: Op("==", L(0), N(1))}, Pr(ReadE{Path: S("a.txt")}))
@@ -204,6 +219,17 @@ func c18Shapes(quick bool) []Shape {
 			Do(AppCallE{Calls: []AppOne{{Name: "./probe", Args: []Expr{Call("tick", S("first"))}}, {Name: "./probe", Args: []Expr{Call("tick", S("second"))}}}}),
 			DefN([]string{"o", "e", "code"}, AppCallE{Calls: []AppOne{{Name: "./probe", Args: []Expr{Call("tick", S("a")), Call("tick", S("b"))}}, {Name: "./probe3", Args: []Expr{Call("tick", S("c"))}}, {Name: "./probe", Args: []Expr{Call("tick", S("d"))}}}}),
 			Pr(V("o"), V("code"), V("n")))
+	}})
+	// results of program calls that are alive at the same time: nested calls as arguments, two calls in one print
+	sh = append(sh, Shape{Name: "captured-results-alive-together", Pre: pre, Setup: setup, Prog: func(c *gosym.Ctx) *Program {
+		one := func(name string, args ...Expr) Expr { return AppCallE{Calls: []AppOne{{Name: name, Args: args}}} }
+		return Prog(
+			DefN([]string{"o", "e", "code"}, one("./probe", one("./probe", S("first")), one("./probe3", S("second")))), Pr(V("o"), V("code")),
+			Do(one("./probe", one("./probe", S("x")), S("mid"), AppCallE{Calls: []AppOne{{Name: "./probe", Args: []Expr{S("q")}}, {Name: "./probe3", Args: []Expr{S("r")}}}})),
+			DefN([]string{"o2", "e2", "c2"}, AppCallE{Calls: []AppOne{{Name: "./probe", Args: []Expr{one("./probe", S("s1"))}}, {Name: "./probe200", Args: []Expr{one("./probe3", S("s2"))}}}}), Pr(V("o2"), V("c2")),
+			Pr(one("./probe3", S("p")), one("./probe", S("q"))),
+			Fn("both", []ParamDecl{Pm("a", TString), Pm("b", TString)}, []Type{TString}, DefN([]string{"fo", "fe", "fc"}, one("./probe", one("./probe", V("a")), one("./probe", V("b")), V("a"))), Ret(V("fo"))),
+			Pr(Call("both", S("l"), S("r"))))
 	}})
 	mk("capture-in-function", func(c *gosym.Ctx, v gosym.Str) []Stmt {
 		prog := []string{"./probe3", "./probe200", "./probe"}[c.Choose("prog", 0, 2)]
